@@ -163,6 +163,21 @@ impl Inp {
         Ok(result)
     }
 
+    // Do the two items accept exactly the same typed words?  (Descriptions and fallback levels only
+    // matter for completion, not for matching.)
+    fn reads_same_words_as(&self, other: &Inp) -> bool {
+        match (self, other) {
+            (Self::Literal { literal: a, .. }, Self::Literal { literal: b, .. }) => a == b,
+            (Self::Subword { subdfa: a, .. }, Self::Subword { subdfa: b, .. }) => a == b,
+            (
+                Self::Command { cmd: a, .. } | Self::Compadd { cmd: a, .. },
+                Self::Command { cmd: b, .. } | Self::Compadd { cmd: b, .. },
+            ) => a == b,
+            (Self::Star, Self::Star) => true,
+            _ => false,
+        }
+    }
+
     pub fn is_star(&self) -> bool {
         match self {
             Self::Star => true,
@@ -314,17 +329,25 @@ fn dfa_from_regex(
         let from_combined_state_id = *state_id_from_set_of_positions.get(&combined_state).unwrap();
         let state_transitions = transitions.entry(from_combined_state_id).or_default();
         for (inp_id, inp) in inputs.pairs() {
+            // Items that read the same words (e.g. one literal expected in two `||` branches) are one
+            // expectation: whichever of them a typed word is taken for, what may follow is the union.
             let mut set_of_positions = RoaringBitmap::new();
+            let mut expected_here = false;
             for pos in &combined_state {
-                if let Some(input) = regex.input_from_position.get(*pos as usize)
-                    && Inp::from_input(input, subword_regexes, &mut subdfas, &mut subwords_cache)?
-                        == *inp
-                    && let Some(positions) = followpos.get(pos)
-                {
-                    set_of_positions |= positions;
+                if let Some(input) = regex.input_from_position.get(*pos as usize) {
+                    let pos_inp =
+                        Inp::from_input(input, subword_regexes, &mut subdfas, &mut subwords_cache)?;
+                    if pos_inp == *inp {
+                        expected_here = true;
+                    }
+                    if pos_inp.reads_same_words_as(inp)
+                        && let Some(positions) = followpos.get(pos)
+                    {
+                        set_of_positions |= positions;
+                    }
                 }
             }
-            if !set_of_positions.is_empty() {
+            if expected_here && !set_of_positions.is_empty() {
                 let set_of_positions = BTreeSet::from_iter(set_of_positions);
                 if !state_id_from_set_of_positions.contains_key(&set_of_positions) {
                     state_id_from_set_of_positions
